@@ -167,7 +167,7 @@ def identify_object(
         content = sys.stdin.buffer.read()
         swhid = str(swhid_of_file_content(content))
     elif obj_type in ["content", "directory"]:
-        path = obj.encode(sys.getfilesystemencoding())
+        path = os.fsencode(obj)
         if follow_symlinks and os.path.islink(obj):
             path = os.path.realpath(path)
         if obj_type == "content":
